@@ -343,6 +343,7 @@ func (s *Session) run(ctx context.Context, calldepth int, funcv *bigslice.FuncVa
 		Slice:    slice,
 		sess:     s,
 		invIndex: inv.Index,
+		inv:      inv,
 		tasks:    tasks,
 	}, err
 }
@@ -393,7 +394,9 @@ func (s *Session) HandleDebug(handler *http.ServeMux) {
 // bigslice.Func.
 type Result struct {
 	bigslice.Slice
-	invIndex  uint64
+	invIndex uint64
+	// inv is the invocation that produced this result.
+	inv       execInvocation
 	sess      *Session
 	tasks     []*Task
 	initScope sync.Once
